@@ -319,7 +319,7 @@ structure Cmd where
 
 /-- payload-free error texts produced after the arity test -/
 inductive Lit where
-  | invalidFormat | expectedBulk
+  | invalidFormat | expectedBulk | expectedUnsigned
   | notInt | notFloat | u64Empty | u64Invalid | u64Overflow
   | syntax | nxxx | dbRange
   | setEx | setPx | setExat | setPxat
@@ -340,6 +340,7 @@ inductive Lit where
 def Lit.text : Lit → Bytes
   | .invalidFormat => s2b "Invalid command format"
   | .expectedBulk => s2b "Expected bulk string"
+  | .expectedUnsigned => s2b "Expected unsigned integer"
   | .notInt => s2b "ERR value is not an integer or out of range"
   | .notFloat => s2b "ERR value is not a valid float"
   | .u64Empty => s2b "cannot parse integer from empty string"
